@@ -921,6 +921,11 @@ int cp_rsa_ver(uint8_t *sig, size_t sig_len, const uint8_t *msg, size_t msg_len,
 
 		bn_read_bin(eb, sig, sig_len);
 
+		/* The signature must have the length of the modulus and represent an
+		 * integer below it (RFC 8017, 8.1.2), otherwise s and s + n verify alike. */
+		if (sig_len == (size_t)bn_size_bin(pub->crt->n) &&
+				bn_cmp(eb, pub->crt->n) == RLC_LT) {
+
 		bn_mxp(eb, eb, pub->e, pub->crt->n);
 
 		int operation = (!hash ? RSA_VER : RSA_VER_HASH);
@@ -971,6 +976,8 @@ int cp_rsa_ver(uint8_t *sig, size_t sig_len, const uint8_t *msg, size_t msg_len,
 			result = (result == RLC_EQ ? 1 : 0);
 		} else {
 			result = 0;
+		}
+
 		}
 	}
 	RLC_CATCH_ANY {
